@@ -461,17 +461,21 @@ class Model(object):
 
             # Update variable meta data based on the variable's role in the model
             if lhs.is_Derivative:
-                # Get the state symbol and update the variable information
-                state_symbol = lhs.free_symbols.pop()
-                state_symbol.type = VariableType.STATE
-
-                # Get the free symbol and update the variable information
-                free_symbol = lhs.variables[0]
-                free_symbol.type = VariableType.FREE
+                # The state and the free symbol get their roles below, after all left-hand sides have theirs
+                pass
             elif isinstance(equation.rhs, Quantity):
                 lhs.type = VariableType.PARAMETER
             else:
                 lhs.type = VariableType.COMPUTED
+
+        # The roles that come from the ODEs win (and FREE over STATE) wherever the ODEs stand in the list of equations:
+        # a state or free variable that also has an equation of its own is STATE / FREE, not PARAMETER / COMPUTED
+        for equation in self.equations:
+            if equation.lhs.is_Derivative:
+                equation.lhs.free_symbols.pop().type = VariableType.STATE
+        for equation in self.equations:
+            if equation.lhs.is_Derivative:
+                equation.lhs.variables[0].type = VariableType.FREE
 
         # Sanity check: none of the lhs have the same hash
         assert len(graph.nodes) == equation_count
